@@ -489,6 +489,51 @@ func c17(c *ctx) {
 			d.Write(g.Payload)
 		})
 	}
+	// the masking writer as a transport layer under other write APIs, after it has served another stream and
+	// been Reset: what reaches the destination is the XOR image of exactly what the upper layer wrote (the
+	// upper layer takes pooled buffers of the same classes while the masking writer is at work)
+	for _, sz := range []int{1, 100, 128, 200, 256, 1000, 4096, 65536, 70000} {
+		for vi, variant := range []string{"WriteClientMessage", "WriteServerMessage", "Writer", "twice"} {
+			key := fmt.Sprintf("write/CipherWriter.reset/%d/%s", sz, variant)
+			if !vh.Only(key) {
+				continue
+			}
+			p := vh.PBytes(5+vi, 0, sz)
+			keep := append([]byte(nil), p...)
+			k0, k := [4]byte{9, 9, 9, 9}, [4]byte{0x10, 0x20, 0x30, 0x40}
+			var dst bytes.Buffer
+			cw := wsutil.NewCipherWriter(io.Discard, k0)
+			cw.Write(vh.PBytes(1, 0, sz))
+			if variant == "twice" {
+				cw.Reset(io.Discard, k0)
+				cw.Write(vh.PBytes(2, 0, sz/2+1))
+			}
+			cw.Reset(&dst, k)
+			switch variant {
+			case "WriteServerMessage":
+				wsutil.WriteServerMessage(cw, ws.OpBinary, p)
+			case "Writer":
+				w := wsutil.NewWriterSize(cw, ws.StateClientSide, ws.OpBinary, 128)
+				w.Write(p)
+				w.Flush()
+			default:
+				wsutil.WriteClientMessage(cw, ws.OpBinary, p)
+			}
+			wire := append([]byte(nil), dst.Bytes()...)
+			ws.Cipher(wire, k, 0)
+			fs, rest := vh.ParseFrames(wire)
+			var got []byte
+			for _, f := range fs {
+				got = append(got, f.Raw...)
+			}
+			ok := len(rest) == 0 && len(fs) >= 1 && bytes.Equal(got, keep)
+			out.Emit(pev{Ev: "setup", Key: key}, true)
+			out.Emit(pev{Ev: "Caller", Op: "CipherWriter.reset", Same: bytes.Equal(p, keep)}, false)
+			out.Emit(pev{Ev: "Dest", Op: "CipherWriter.reset", Same: ok}, false)
+			n++
+			shapes.Add("CipherWriter.reset/%d/%s", sz, variant)
+		}
+	}
 	meta.Evaluations = n
 	meta.Distinct = len(shapes)
 	out.Close()
